@@ -80,6 +80,11 @@ CLAIMED = {
          "The exit-status contract is a TLA+ function (Cli!Admissible, Cli!PostOK) over what was asked and what is really on disk; TLC enumerates every combination of format, command spelling, archive state, invocation directory, path spelling and usage-error class (668 cases), checks that 0 is admissible only for full success and usage errors give exactly 3, and emits the cases; each is executed with the par binary built from the working tree (-tags verif) in a freshly constructed directory whose ground truth (repair needed / possible / index intact) is derived from the bytes by the harness, and TLC judges the exit status, the post-state (repair 0 => every file intact; create 0 => a set that verifies clean; verify/usage change nothing) and the crash flag.",
          "Reading of 'another non-zero status' as not in {0,1,2,3}; one fixed data set per format.",
          "DESIGN.md section 5 C20"),
+ "C17": ("model_checking",
+         "TLC enumerates the variation space of Create (input order, goroutines, cwd, path spelling, library/CLI, kernel path, repetition); each configuration executed on the real code; a stateful TLA+ trace specification states the 2-safety property (same key => same bytes) over all recorded executions",
+         "The variation space is a TLA+ model (1,260 configurations in the quick tier, 3,330 in the thorough tier) whose Key operator names exactly the parameters the output may depend on; every configuration is executed through the library or the built par binary in a fresh directory, and the trace specification - which carries state: the first output seen per key - rejects any execution whose written files differ from an earlier one with the same key, any failing Create, and any write outside the set.",
+         "Three file sets per format; digests stand for bytes.",
+         "DESIGN.md section 5 C17"),
 }
 
 NOT_YET = "check under construction in this round; not claimed until it runs green on the unchanged tree"
